@@ -520,6 +520,9 @@ func (in *inst) exec(e *event) string {
 					switch ms[0] {
 					case "x":
 						a.memErr = true
+					case "n": // namespace not loaded on that node (HTTP 404 on both queries)
+						a.notLoad = true
+						a.synced = false
 					case "-":
 					default:
 						for _, m := range strings.Split(ms[0], ",") {
